@@ -869,6 +869,9 @@ func partDeterminism(c *vh.Ctx, m *vh.Model, ch *chainT, idx int) {
 	hs := histories()
 	var ref map[string]string
 	for hi, h := range hs {
+		if len(ch.side) == 0 && (strings.Contains(h.name, "fork") || strings.Contains(h.name, "sibling")) {
+			continue // a chain read from a replay file has no siblings / competing fork
+		}
 		n := newNode(c, ch, h.cache)
 		err := h.run(c, n, ch)
 		class := "history:" + h.name
@@ -1617,7 +1620,9 @@ func main() {
 	c.Assume("database = aquadb.MemDatabase; restart = BlockChain.Stop + NewBlockChain on the same database")
 	c.Assume("Go map iteration orders and cache contents actually taken are sampled (one run per history); the theorems cover all of them in the model")
 	if c.Replay != "" {
-		c.Note("-replay: a C01 replay file carries the RLP of the main chain and of the offending block plus the history / corruption name; re-running the same -seed regenerates it (the generator is deterministic in the seed except for the worker's wall-clock timestamp)")
+		runReplay(c, m, c.Replay)
+		c.Finish()
+		return
 	}
 	nchains := c.Scale(2, 12)
 	specs := configs()
@@ -1672,6 +1677,9 @@ func main() {
 		partCorruption(c, m, ch, idx, cache, cname)
 		t4 := time.Now()
 		partForks(c, spec, idx)
+		t45 := time.Now()
+		partCrash(c, ch, idx)
+		c.Note("chain %d crash %.1fs", idx, time.Since(t45).Seconds())
 		t5 := time.Now()
 		partObjects(c, spec)
 		c.Note("chain %d objects %.1fs", idx, time.Since(t5).Seconds())
